@@ -94,6 +94,8 @@ def classify(rq, c):
             for x in t:
                 if isinstance(x, (tuple, list)) and len(x) == 2 and isinstance(x[0], str):
                     pairs.append(tuple(x))
+                elif isinstance(x, (tuple, list)) and len(x) == 2 and (x[0] is None or _is_int(x[0])):
+                    inv.append("topics-type")        # a topic of the wrong type inside a well-formed list
                 else:
                     rq.soft = True
             if not t:
@@ -107,13 +109,19 @@ def classify(rq, c):
             else:
                 rq.soft = True
             if not _strlen_ok(tp):
-                rq.soft = True
+                inv.append("topic-too-long")         # cannot be represented (C02): ValueError, nothing written
     elif m == "unsubscribe":
         t = a["topics"]
         if isinstance(t, str):
-            pass
+            if not _strlen_ok(t):
+                inv.append("topic-too-long")
         elif isinstance(t, list):
-            if not t or not all(isinstance(x, str) for x in t):
+            if t and all(isinstance(x, str) or x is None or _is_int(x) for x in t):
+                if not all(isinstance(x, str) for x in t):
+                    inv.append("topics-type")
+                elif not all(_strlen_ok(x) for x in t):
+                    inv.append("topic-too-long")
+            else:
                 rq.soft = True
         else:
             inv.append("topics-type")
@@ -157,6 +165,12 @@ def classify(rq, c):
         rq.allowed = st == "connected"
     else:
         rq.allowed = True
-    # I11: between a close request and the loss report acceptance is not judged
+    # I11: between a close request and the loss report acceptance is not judged - except after
+    # disconnect() itself: once DISCONNECT is written the protocol is no longer connected, and
+    # nothing is allowed until the loss is reported (C14 "disconnect() only while connected")
     rq.judged = c.closing is None or st == "lost"
+    if c.closing == "lose" and getattr(c, "disconnect_written", None) and st != "lost":
+        if m in ("connect", "publish", "subscribe", "unsubscribe", "disconnect"):
+            rq.allowed = False
+            rq.judged = True
     rq.returns_deferred = m in ("connect", "publish", "subscribe", "unsubscribe")
